@@ -328,8 +328,9 @@ def norm(kind, pieces):
             if isinstance(p, Fill) and isinstance(q, Fill) and q.ch == p.ch:
                 out[-1] = Fill(p.ch, q.count + p.count)
                 continue
-            if isinstance(p, Frag) and isinstance(q, Frag) and _same_piece(q.base, p.base) and q.chain == p.chain and same_int(q.b, p.a):
-                if same_int(q.a, 0) and same_int(p.b, p.base.length()) and not p.chain:
+            if isinstance(p, Frag) and isinstance(q, Frag) and _same_piece(q.base, p.base) and q.chain == p.chain and \
+                    (same_int(q.b, p.a) or s_eq(q.b, p.a)):        # undecided syntactically: the solver decides (may fork)
+                if (same_int(q.a, 0) or s_eq(q.a, 0)) and (same_int(p.b, p.base.length()) or s_eq(p.b, p.base.length())) and not p.chain:
                     out[-1] = p.base
                 else:
                     out[-1] = Frag(p.base, q.a, p.b, p.chain)
